@@ -70,9 +70,19 @@ fn op_text(t: OperateType) -> &'static str {
 macro_rules! control_support {
     ($t:ty, $name:expr) => {
         impl ControlSupport<$t> for Handler {
-            fn select(&mut self, control: $t, index: u16, _db: &mut DatabaseHandle) -> CommandStatus {
+            fn select(
+                &mut self,
+                control: $t,
+                index: u16,
+                _db: &mut DatabaseHandle,
+            ) -> CommandStatus {
                 let st = self.0.lock().unwrap().select_status;
-                vt::log(format!("cb select {} {} {}", $name, index, obj_hex(&control)));
+                vt::log(format!(
+                    "cb select {} {} {}",
+                    $name,
+                    index,
+                    obj_hex(&control)
+                ));
                 CommandStatus::from(st)
             }
             fn operate(
@@ -219,16 +229,28 @@ impl OutstationInformation for Info {
         vt::log("info sol_new_request".to_string());
     }
     fn wrong_solicited_confirm_seq(&mut self, ecsn: Sequence, seq: Sequence) {
-        vt::log(format!("info sol_wrong_seq {} {}", ecsn.value(), seq.value()));
+        vt::log(format!(
+            "info sol_wrong_seq {} {}",
+            ecsn.value(),
+            seq.value()
+        ));
     }
     fn unexpected_confirm(&mut self, unsolicited: bool, seq: Sequence) {
-        vt::log(format!("info unexpected_confirm {} {}", unsolicited as u8, seq.value()));
+        vt::log(format!(
+            "info unexpected_confirm {} {}",
+            unsolicited as u8,
+            seq.value()
+        ));
     }
     fn enter_unsolicited_confirm_wait(&mut self, ecsn: Sequence) {
         vt::log(format!("info enter_unsol_wait {}", ecsn.value()));
     }
     fn unsolicited_confirm_timeout(&mut self, ecsn: Sequence, retry: bool) {
-        vt::log(format!("info unsol_timeout {} {}", ecsn.value(), retry as u8));
+        vt::log(format!(
+            "info unsol_timeout {} {}",
+            ecsn.value(),
+            retry as u8
+        ));
     }
     fn unsolicited_confirmed(&mut self, ecsn: Sequence) {
         vt::log(format!("info unsol_confirmed {}", ecsn.value()));
@@ -305,49 +327,84 @@ fn digest(bytes: &[u8]) -> String {
             out.push_str(" obj=ok");
             let mut rh = String::new();
             for h in headers.iter() {
-                rh.push(if crate::outstation::database::read::ReadHeader::get(&h).is_some() {
-                    '1'
-                } else {
-                    '0'
-                });
+                rh.push(
+                    if crate::outstation::database::read::ReadHeader::get(&h).is_some() {
+                        '1'
+                    } else {
+                        '0'
+                    },
+                );
                 let tok = match h.details {
                     HeaderDetails::OneByteStartStop(_, _, RangedVariation::Group80Var1(bits)) => {
                         let items: Vec<String> = bits
                             .iter()
                             .map(|(v, i)| format!("{}={}", i, v as u8))
                             .collect();
-                        format!("iin:{}", if items.is_empty() { "-".to_string() } else { items.join(",") })
+                        format!(
+                            "iin:{}",
+                            if items.is_empty() {
+                                "-".to_string()
+                            } else {
+                                items.join(",")
+                            }
+                        )
                     }
-                    HeaderDetails::OneByteCount(_, CountVariation::Group50Var1(seq)) => match seq.single() {
-                        Some(v) => format!("abstime:{}", v.time.raw_value()),
-                        None => "abstime:none".to_string(),
-                    },
-                    HeaderDetails::OneByteCount(_, CountVariation::Group50Var3(seq)) => match seq.single() {
-                        Some(v) => format!("lrtime:{}", v.time.raw_value()),
-                        None => "lrtime:none".to_string(),
-                    },
-                    HeaderDetails::AllObjects(AllObjectsVariation::Group60Var2) => "cls:1".to_string(),
-                    HeaderDetails::AllObjects(AllObjectsVariation::Group60Var3) => "cls:2".to_string(),
-                    HeaderDetails::AllObjects(AllObjectsVariation::Group60Var4) => "cls:3".to_string(),
-                    HeaderDetails::AllObjects(AllObjectsVariation::Group20Var0) => "frz:all".to_string(),
-                    HeaderDetails::OneByteStartStop(a, b, RangedVariation::Group20Var0) => format!("frz:{}:{}", a, b),
-                    HeaderDetails::TwoByteStartStop(a, b, RangedVariation::Group20Var0) => format!("frz:{}:{}", a, b),
-                    HeaderDetails::OneByteCount(_, CountVariation::Group50Var2(seq)) => match seq.single() {
-                        Some(v) => format!("ft:{}:{}", v.time.raw_value(), v.interval),
-                        None => "ft:none".to_string(),
-                    },
-                    HeaderDetails::TwoByteCount(_, CountVariation::Group50Var2(seq)) => match seq.single() {
-                        Some(v) => format!("ft:{}:{}", v.time.raw_value(), v.interval),
-                        None => "ft:none".to_string(),
-                    },
-                    HeaderDetails::OneByteStartStop(_, _, RangedVariation::Group0(_, Some(_))) => "attr".to_string(),
-                    HeaderDetails::TwoByteStartStop(_, _, RangedVariation::Group0(_, Some(_))) => "attr".to_string(),
+                    HeaderDetails::OneByteCount(_, CountVariation::Group50Var1(seq)) => {
+                        match seq.single() {
+                            Some(v) => format!("abstime:{}", v.time.raw_value()),
+                            None => "abstime:none".to_string(),
+                        }
+                    }
+                    HeaderDetails::OneByteCount(_, CountVariation::Group50Var3(seq)) => {
+                        match seq.single() {
+                            Some(v) => format!("lrtime:{}", v.time.raw_value()),
+                            None => "lrtime:none".to_string(),
+                        }
+                    }
+                    HeaderDetails::AllObjects(AllObjectsVariation::Group60Var2) => {
+                        "cls:1".to_string()
+                    }
+                    HeaderDetails::AllObjects(AllObjectsVariation::Group60Var3) => {
+                        "cls:2".to_string()
+                    }
+                    HeaderDetails::AllObjects(AllObjectsVariation::Group60Var4) => {
+                        "cls:3".to_string()
+                    }
+                    HeaderDetails::AllObjects(AllObjectsVariation::Group20Var0) => {
+                        "frz:all".to_string()
+                    }
+                    HeaderDetails::OneByteStartStop(a, b, RangedVariation::Group20Var0) => {
+                        format!("frz:{}:{}", a, b)
+                    }
+                    HeaderDetails::TwoByteStartStop(a, b, RangedVariation::Group20Var0) => {
+                        format!("frz:{}:{}", a, b)
+                    }
+                    HeaderDetails::OneByteCount(_, CountVariation::Group50Var2(seq)) => {
+                        match seq.single() {
+                            Some(v) => format!("ft:{}:{}", v.time.raw_value(), v.interval),
+                            None => "ft:none".to_string(),
+                        }
+                    }
+                    HeaderDetails::TwoByteCount(_, CountVariation::Group50Var2(seq)) => {
+                        match seq.single() {
+                            Some(v) => format!("ft:{}:{}", v.time.raw_value(), v.interval),
+                            None => "ft:none".to_string(),
+                        }
+                    }
+                    HeaderDetails::OneByteStartStop(_, _, RangedVariation::Group0(_, Some(_))) => {
+                        "attr".to_string()
+                    }
+                    HeaderDetails::TwoByteStartStop(_, _, RangedVariation::Group0(_, Some(_))) => {
+                        "attr".to_string()
+                    }
                     HeaderDetails::OneByteCountAndPrefix(_, PrefixedVariation::Group34Var1(_))
                     | HeaderDetails::OneByteCountAndPrefix(_, PrefixedVariation::Group34Var2(_))
                     | HeaderDetails::OneByteCountAndPrefix(_, PrefixedVariation::Group34Var3(_))
                     | HeaderDetails::TwoByteCountAndPrefix(_, PrefixedVariation::Group34Var1(_))
                     | HeaderDetails::TwoByteCountAndPrefix(_, PrefixedVariation::Group34Var2(_))
-                    | HeaderDetails::TwoByteCountAndPrefix(_, PrefixedVariation::Group34Var3(_)) => "db34".to_string(),
+                    | HeaderDetails::TwoByteCountAndPrefix(_, PrefixedVariation::Group34Var3(_)) => {
+                        "db34".to_string()
+                    }
                     _ => match h.to_control_header() {
                         Ok(_) => control_token(&h.details),
                         Err(_) => "other".to_string(),
@@ -356,13 +413,18 @@ fn digest(bytes: &[u8]) -> String {
                 out.push_str(" H");
                 out.push_str(&tok);
             }
-            out.push_str(&format!(" rh={}", if rh.is_empty() { "-".to_string() } else { rh }));
+            out.push_str(&format!(
+                " rh={}",
+                if rh.is_empty() { "-".to_string() } else { rh }
+            ));
         }
     }
     out
 }
 
-fn items<I, V>(seq: &crate::app::parse::count::CountSequence<crate::app::parse::prefix::Prefix<I, V>>) -> String
+fn items<I, V>(
+    seq: &crate::app::parse::count::CountSequence<crate::app::parse::prefix::Prefix<I, V>>,
+) -> String
 where
     I: crate::app::parse::traits::Index,
     V: FixedSizeVariation,
@@ -380,16 +442,36 @@ where
 
 fn control_token(d: &HeaderDetails) -> String {
     match d {
-        HeaderDetails::OneByteCountAndPrefix(_, PrefixedVariation::Group12Var1(s)) => format!("ctl:12:1:1:{}", items(s)),
-        HeaderDetails::OneByteCountAndPrefix(_, PrefixedVariation::Group41Var1(s)) => format!("ctl:41:1:1:{}", items(s)),
-        HeaderDetails::OneByteCountAndPrefix(_, PrefixedVariation::Group41Var2(s)) => format!("ctl:41:2:1:{}", items(s)),
-        HeaderDetails::OneByteCountAndPrefix(_, PrefixedVariation::Group41Var3(s)) => format!("ctl:41:3:1:{}", items(s)),
-        HeaderDetails::OneByteCountAndPrefix(_, PrefixedVariation::Group41Var4(s)) => format!("ctl:41:4:1:{}", items(s)),
-        HeaderDetails::TwoByteCountAndPrefix(_, PrefixedVariation::Group12Var1(s)) => format!("ctl:12:1:2:{}", items(s)),
-        HeaderDetails::TwoByteCountAndPrefix(_, PrefixedVariation::Group41Var1(s)) => format!("ctl:41:1:2:{}", items(s)),
-        HeaderDetails::TwoByteCountAndPrefix(_, PrefixedVariation::Group41Var2(s)) => format!("ctl:41:2:2:{}", items(s)),
-        HeaderDetails::TwoByteCountAndPrefix(_, PrefixedVariation::Group41Var3(s)) => format!("ctl:41:3:2:{}", items(s)),
-        HeaderDetails::TwoByteCountAndPrefix(_, PrefixedVariation::Group41Var4(s)) => format!("ctl:41:4:2:{}", items(s)),
+        HeaderDetails::OneByteCountAndPrefix(_, PrefixedVariation::Group12Var1(s)) => {
+            format!("ctl:12:1:1:{}", items(s))
+        }
+        HeaderDetails::OneByteCountAndPrefix(_, PrefixedVariation::Group41Var1(s)) => {
+            format!("ctl:41:1:1:{}", items(s))
+        }
+        HeaderDetails::OneByteCountAndPrefix(_, PrefixedVariation::Group41Var2(s)) => {
+            format!("ctl:41:2:1:{}", items(s))
+        }
+        HeaderDetails::OneByteCountAndPrefix(_, PrefixedVariation::Group41Var3(s)) => {
+            format!("ctl:41:3:1:{}", items(s))
+        }
+        HeaderDetails::OneByteCountAndPrefix(_, PrefixedVariation::Group41Var4(s)) => {
+            format!("ctl:41:4:1:{}", items(s))
+        }
+        HeaderDetails::TwoByteCountAndPrefix(_, PrefixedVariation::Group12Var1(s)) => {
+            format!("ctl:12:1:2:{}", items(s))
+        }
+        HeaderDetails::TwoByteCountAndPrefix(_, PrefixedVariation::Group41Var1(s)) => {
+            format!("ctl:41:1:2:{}", items(s))
+        }
+        HeaderDetails::TwoByteCountAndPrefix(_, PrefixedVariation::Group41Var2(s)) => {
+            format!("ctl:41:2:2:{}", items(s))
+        }
+        HeaderDetails::TwoByteCountAndPrefix(_, PrefixedVariation::Group41Var3(s)) => {
+            format!("ctl:41:3:2:{}", items(s))
+        }
+        HeaderDetails::TwoByteCountAndPrefix(_, PrefixedVariation::Group41Var4(s)) => {
+            format!("ctl:41:4:2:{}", items(s))
+        }
         _ => "other".to_string(),
     }
 }
@@ -454,7 +536,8 @@ pub(crate) async fn run_outstation(script: &Script, obs: &mut Vec<String>) {
     );
     config.decode_level = decode_level(script);
     config.solicited_buffer_size = BufferSize::new(script.cfg_u64("soltx", 2048) as usize).unwrap();
-    config.unsolicited_buffer_size = BufferSize::new(script.cfg_u64("unsoltx", 2048) as usize).unwrap();
+    config.unsolicited_buffer_size =
+        BufferSize::new(script.cfg_u64("unsoltx", 2048) as usize).unwrap();
     config.rx_buffer_size = BufferSize::new(script.cfg_u64("rx", 2048) as usize).unwrap();
     config.confirm_timeout = Timeout::from_millis(script.cfg_u64("confirm_ms", 5000)).unwrap();
     config.select_timeout = Timeout::from_millis(script.cfg_u64("select_ms", 5000)).unwrap();
@@ -523,7 +606,9 @@ pub(crate) async fn run_outstation(script: &Script, obs: &mut Vec<String>) {
                 std::mem::forget(io);
             }
             match err {
-                crate::util::session::RunError::Stop(crate::util::session::StopReason::Shutdown) => return,
+                crate::util::session::RunError::Stop(
+                    crate::util::session::StopReason::Shutdown,
+                ) => return,
                 // disabled by the user: like the TCP server task, process messages until enabled again
                 crate::util::session::RunError::Stop(crate::util::session::StopReason::Disable) => {
                     while task.enabled() != Enabled::Yes {
@@ -547,7 +632,12 @@ pub(crate) async fn run_outstation(script: &Script, obs: &mut Vec<String>) {
                 let from = EndpointAddress::raw(op[1].parse::<u16>().unwrap());
                 let bytes = unhex(&op[3]);
                 vt::log(format!("> digest {}", digest(&bytes)));
-                verif_hook::push_frame_info(FrameInfo::new(from, bcast(&op[2]), FrameType::Data, PhysAddr::None));
+                verif_hook::push_frame_info(FrameInfo::new(
+                    from,
+                    bcast(&op[2]),
+                    FrameType::Data,
+                    PhysAddr::None,
+                ));
                 io.read(&bytes);
                 settle().await;
             }
@@ -578,9 +668,19 @@ pub(crate) async fn run_outstation(script: &Script, obs: &mut Vec<String>) {
                 let time = Time::Synchronized(Timestamp::new(op[5].parse::<u64>().unwrap()));
                 let opts = UpdateOptions::detect_event();
                 let ok = handle.transaction(|db| match op[1].as_str() {
-                    "binary" => db.update(index, &BinaryInput::new(op[3] != "0", flags, time), opts),
-                    "counter" => db.update(index, &Counter::new(op[3].parse::<u32>().unwrap(), flags, time), opts),
-                    "analog" => db.update(index, &AnalogInput::new(op[3].parse::<f64>().unwrap(), flags, time), opts),
+                    "binary" => {
+                        db.update(index, &BinaryInput::new(op[3] != "0", flags, time), opts)
+                    }
+                    "counter" => db.update(
+                        index,
+                        &Counter::new(op[3].parse::<u32>().unwrap(), flags, time),
+                        opts,
+                    ),
+                    "analog" => db.update(
+                        index,
+                        &AnalogInput::new(op[3].parse::<f64>().unwrap(), flags, time),
+                        opts,
+                    ),
                     "octet" => db.update(index, &OctetString::new(&unhex(&op[3])).unwrap(), opts),
                     x => panic!("bad type {}", x),
                 });
